@@ -11,7 +11,11 @@ Inductive ending :=
 | EReturn
 | ERaise (e : nat).               (* an Exception escapes the task function *)
 
-Record beh := Beh { b_segs : nat; b_end : ending }.
+Record beh := Beh {
+  b_segs : nat;
+  b_end : ending;
+  b_oncancel : option nat }.      (* when cancelled through its handle the task raises this Exception
+                                     (from a finally block, say) instead of letting the cancellation through *)
 
 Inductive tstate :=
 | TRun (left : nat)               (* at the gate of its next segment when left > 0 *)
@@ -49,6 +53,8 @@ Definition set_t (s : st) (k : nat) (t : tstate) : st :=
 Definition remove_handle (s : st) (k : nat) : st :=
   St (tasks s) (filter (fun h => negb (Nat.eqb h k)) (handles s)) (ph s).
 
+Definition oncancel_of (s : st) (k : nat) : option nat :=
+  match nth_error (tasks s) k with Some (b, _) => b_oncancel b | None => None end.
 Definition running (s : st) (k : nat) : bool := match tstate_of s k with TRun _ => true | TEnded => false end.
 
 (* the handler's verdict: None = no handler; Some true = swallow *)
@@ -114,7 +120,14 @@ Definition fire (verdict : option bool) (s : st) (g : gate) : st * list obs :=
   | GCancel k =>
       match tstate_of s k with
       | TRun _ =>
-          let '(s2, o) := maybe_close (remove_handle (set_t s k TEnded) k) in (s2, CancelSeen k :: Ended k :: o)
+          match oncancel_of s k with
+          | None =>
+              let '(s2, o) := maybe_close (remove_handle (set_t s k TEnded) k) in (s2, CancelSeen k :: Ended k :: o)
+          | Some e =>
+              (* an Exception escapes the cancelled task: it is treated like any other *)
+              let '(s2, o) := finish_task verdict s k (Beh 0 (ERaise e) None) in
+              let '(s3, o') := maybe_close s2 in (s3, CancelSeen k :: o ++ o')
+          end
       | TEnded => (s, [])
       end
   | GTeardown =>
